@@ -1260,6 +1260,14 @@ func (app *App) performSwitchover(clusterState map[string]*nodestate.NodeState, 
 
 	activeNodesWithOldMaster := activeNodes
 
+	// a host that is still named in the active list but is not registered any more
+	// (e.g. removed with "mysync host remove" before it was evicted) is treated as unreachable
+	for _, host := range activeNodes {
+		if clusterState[host] == nil {
+			clusterState[host] = new(nodestate.NodeState)
+		}
+	}
+
 	// filter out old master as may hang and timeout in different ways
 	if switchover.Cause == CauseAuto && switchover.From == oldMaster {
 		activeNodes = filterOut(activeNodes, []string{oldMaster})
@@ -1418,6 +1426,9 @@ func (app *App) performSwitchover(clusterState map[string]*nodestate.NodeState, 
 	app.logger.Info().Msgf("switchover: newMaster is %s", newMaster)
 
 	newMasterNode := app.cluster.Get(newMaster)
+	if newMasterNode == nil {
+		return fmt.Errorf("switchover: new master %s is not a registered host", newMaster)
+	}
 
 	// catch up
 	app.logger.Info().Msg("switchover: phase 4: catch up if needed")
@@ -2370,7 +2381,9 @@ func (app *App) stopActiveNodeOptimization(oldMaster string, activeNodes []strin
 
 	var nodes []*mysql.Node
 	for _, hostname := range activeNodes {
-		nodes = append(nodes, app.cluster.Get(hostname))
+		if node := app.cluster.Get(hostname); node != nil {
+			nodes = append(nodes, node)
+		}
 	}
 
 	return app.optController.DisableAll(
